@@ -28,6 +28,7 @@ import AutosarVerif.Lemmas.FileOps
 import AutosarVerif.Lemmas.Compat
 import AutosarVerif.Model.Load
 import AutosarVerif.Lemmas.StepFrame
+import AutosarVerif.Lemmas.StepX
 
 namespace AV.C11
 open AV.W
@@ -89,5 +90,15 @@ example : (opCreate S V { models := [], nextId := 0, nextFile := 0, dead := [] }
 theorem C11_every_core_operation (rootAttrs : List (Nat × CDv)) (w : World) (op : Op) (h : opRefuses S V w op) :
     (applyOp S V rootAttrs w op).1 = w ∧ (applyOp S V rootAttrs w op).2 = "err" :=
   ⟨applyOp_err_frame S V rootAttrs w op h, applyOp_answer_err S V rootAttrs w op h⟩
+
+/-- **failed operations have no effect, for the larger step function** (`applyOpX`: the core operations, `set_item_name`,
+`set_reference_target`, `sort`): a refusal returns the world unchanged and is printed `err`.  For `set_reference_target` this
+holds since the repair of defect c11:set-reference-target-late-failure (before it the model's last branch answered `err` with
+DEST set and the reverse map updated — which is how the defect was found) -/
+theorem C11_every_operation_of_the_larger_alphabet (rootAttrs : List (Nat × CDv)) (w : World) (op : OpX) (h : opXRefuses S V w op) :
+    (applyOpX S V rootAttrs w op).1 = w ∧ (applyOpX S V rootAttrs w op).2 = "err" :=
+  ⟨applyOpX_err_frame S V rootAttrs w op h, applyOpX_answer_err S V rootAttrs w op h⟩
+theorem C11_set_reference_target (w : World) (x t : Nat) :
+    (opSetRef S V w x t).2 = .err → (opSetRef S V w x t).1 = w := opSetRef_err_frame S V w x t
 
 end AV.C11
